@@ -258,6 +258,7 @@ ALPHABET_MORE = [
     ('split', 1, 0), ('split', 2, 0), ('split', 3, 2), ('shard', 2, 0), ('shard', 3, 1), ('pf1', 1), ('pfw', 2, 3), ('pfw', 1, 1, 'thread'),
     ('isp3', 3, 4), ('isp3', 3, 5), ('isp3', 5, 2), ('isp3', 1, 3),
     ('parmap', 1, 1),
+    ('zip1',), ('cat0',), ('isp0',),
 ]
 ALPHABET = ALPHABET_QUICK + ALPHABET_MORE
 
@@ -434,6 +435,15 @@ def apply_op(ds, ref, op, pool, ys, fns, rng):
         vals = [parts[d].vals[i] for d, i in order]
         keys = [parts[d].keys[i] for d, i in order] if cat.keys is not None else None
         return out, cat.clone(vals=vals, keys=keys)
+    if k == 'zip1':
+        # zip over exactly one dataset: the eager reference is list(zip(xs)) == [(x,) for x in xs]
+        if not R.has_len:
+            return _must_refuse(lambda: ds.zip(), R)
+        return ds.zip(), Ref([(v,) for v in R.vals], None, has_len=True, indexable=R.indexable, has_keys=False, has_items=False, iter_ok=R.iter_ok)
+    if k == 'cat0':
+        return ds.concatenate(), R         # concatenation with nothing: the dataset itself
+    if k == 'isp0':
+        return ds.intersperse(), R
     if k in ('zip_b', 'zip_self'):
         if k == 'zip_b':
             dsb, rb = make_b(R, ys, 'zip')
@@ -659,11 +669,18 @@ def programs(n, depth, alphabet, max_shuffle=3):
             yield tuple(ops)
 
 
+DEPTH1_ONLY = ('cat0', 'isp0')        # degenerate forms that return the dataset itself: checked alone, not in pairs
+
+
 def class_pairs(alphabet):
     """one representative pair per ordered pair of op classes"""
     seen = {}
     for a in alphabet:
+        if a[0] in DEPTH1_ONLY:
+            continue
         for b in alphabet:
+            if b[0] in DEPTH1_ONLY:
+                continue
             key = (a[0], b[0])
             if key not in seen:
                 seen[key] = (a, b)
